@@ -33,6 +33,12 @@ def quiet():
     return contextlib.redirect_stderr(io.StringIO())
 
 
+def stated(d):
+    """the part of a projected dialect that C09 speaks of: format, field and key/value separators, quoting, trailing semicolon, repeated keys, key order
+    (the 'leading semicolon' and 'multival separator' entries are carried along by the code but not part of the statement)"""
+    return {k: v for k, v in d.items() if k not in ("lead", "mvsep")} if isinstance(d, dict) else d
+
+
 def obs_iterator(path, cl):
     import gffutils
     with quiet():
@@ -61,7 +67,7 @@ def obs_db(path, dbfn, cl):
         db3 = gffutils.FeatureDB(dbfn)
         d3 = A.proj_dialect(db3.dialect)
         db3.conn.close()
-    return d1, d2 if d3 == d2 else {"after_update_and_reopen": d3}, ids
+    return d1, d2 if stated(d3) == stated(d2) else {"after_update_and_reopen": d3}, ids
 
 
 def run_case(args):
@@ -74,11 +80,11 @@ def run_case(args):
         if not texts:
             # an input without features: the default dialect is reported by the iterator
             d = obs_iterator(path, c["cl"])
-            if d != c["exp"]:
+            if stated(d) != stated(c["exp"]):
                 out["fails"].append(("iterator_dialect", d))
             return out
         d = obs_iterator(path, c["cl"])
-        if d != c["exp"]:
+        if stated(d) != stated(c["exp"]):
             out["fails"].append(("iterator_dialect", d))
         # the same lines as Feature objects in a list / a tuple / a one-shot generator: the inspected window is the same checklines+1 items
         if k % 4 == 0:
@@ -89,7 +95,7 @@ def run_case(args):
                 data = objs if form == "list" else tuple(objs) if form == "tuple" else (o for o in objs)
                 with quiet():
                     dd = A.proj_dialect(gffutils.DataIterator(data, checklines=c["cl"]).dialect)
-                if dd != c["exp"]:
+                if stated(dd) != stated(c["exp"]):
                     out["fails"].append(("iterator_dialect_" + form, dd))
         if with_db:
             marker = len(texts) > c["cl"] + 1
@@ -97,9 +103,9 @@ def run_case(args):
             dbfn = path + ".db"
             d1, d2, ids = obs_db(path, dbfn, c["cl"])
             os.unlink(dbfn)
-            if d1 != c["exp"]:
+            if stated(d1) != stated(c["exp"]):
                 out["fails"].append(("create_db_dialect", d1))
-            if d2 != c["exp"]:
+            if stated(d2) != stated(c["exp"]):
                 out["fails"].append(("reopened_dialect" if "after_update_and_reopen" not in d2 else "dialect_after_update_and_reopen", d2))
             if marker:
                 derived = "gene" in ids and "transcript" in ids
@@ -157,7 +163,7 @@ def run(ctx):
                 continue
             done.add(s)
             got = A.proj_dialect(helpers.infer_dialect(s))
-            if got != d:
+            if stated(got) != stated(d):
                 ctx.violation({"text": s}, "infer_dialect", {"expected": d, "observed": got})
     # D2: consistent files
     from .c07 import random_seeds
